@@ -44,5 +44,72 @@ pub mod dial {
         prefer_ipv6: bool,
     ) -> Result<TcpStream, DialError> {
         crate::client::verif_dial_happy_eyeballs(dns_resolver, url, prefer_ipv6).await
+
+/// Wrappers around the crate-private relay protocol codec (property C10).
+pub mod codec {
+    use bytes::Bytes;
+
+    pub use crate::protos::common::{FrameType, FrameTypeError};
+    use crate::{
+        KeyCache,
+        http::ProtocolVersion,
+        protos::relay::{ClientToRelayMsg, Error, RelayToClientMsg},
+    };
+
+    /// `RelayToClientMsg::to_bytes`
+    #[cfg(feature = "server")]
+    pub fn relay_to_client_to_bytes(msg: &RelayToClientMsg) -> Bytes {
+        msg.to_bytes().freeze()
+    }
+
+    /// `RelayToClientMsg::encoded_len`
+    #[cfg(feature = "server")]
+    pub fn relay_to_client_encoded_len(msg: &RelayToClientMsg) -> usize {
+        msg.encoded_len()
+    }
+
+    /// `RelayToClientMsg::from_bytes`
+    #[allow(clippy::result_large_err)]
+    pub fn relay_to_client_from_bytes(
+        content: Bytes,
+        cache: &KeyCache,
+        protocol_version: ProtocolVersion,
+    ) -> Result<RelayToClientMsg, Error> {
+        RelayToClientMsg::from_bytes(content, cache, protocol_version)
+    }
+
+    /// `ClientToRelayMsg::to_bytes`
+    pub fn client_to_relay_to_bytes(msg: &ClientToRelayMsg) -> Bytes {
+        msg.to_bytes().freeze()
+    }
+
+    /// `ClientToRelayMsg::encoded_len`
+    pub fn client_to_relay_encoded_len(msg: &ClientToRelayMsg) -> usize {
+        msg.encoded_len()
+    }
+
+    /// `ClientToRelayMsg::from_bytes`
+    #[cfg(feature = "server")]
+    #[allow(clippy::result_large_err)]
+    pub fn client_to_relay_from_bytes(
+        content: Bytes,
+        cache: &KeyCache,
+    ) -> Result<ClientToRelayMsg, Error> {
+        ClientToRelayMsg::from_bytes(content, cache)
+    }
+
+    /// `FrameType::write_to` into a fresh vector.
+    pub fn frame_type_to_bytes(frame_type: FrameType) -> Vec<u8> {
+        frame_type.write_to(Vec::new())
+    }
+
+    /// `FrameType::encoded_len`
+    pub fn frame_type_encoded_len(frame_type: FrameType) -> usize {
+        frame_type.encoded_len()
+    }
+
+    /// `FrameType::from_bytes`; advances `buf` past the frame type.
+    pub fn frame_type_from_bytes(buf: &mut Bytes) -> Result<FrameType, FrameTypeError> {
+        FrameType::from_bytes(buf)
     }
 }
